@@ -11,7 +11,7 @@ DOCUMENTED = {"dupKeys", "dupValues", "inconsistent", "cycle"}
 class C11(ProgramProperty):
     id = "C11"
     theorems = ["C11_order_errors", "C11_ordering_perm", "C11_skip_unknown", "C11_step_uri_part", "C11_run_uri_part",
-                "C11_uri_part", "C11_step_known", "C11_known_partial"]
+                "C11_uri_part", "C11_step_known", "C11_known_partial", "C11_known", "C11_applied", "C11_skipped"]
     lean_modules = ["CuriesVerif.Properties.C11"]
     rule = ("one case = one strict converter (default delimiter) and one remapping dictionary of 1-4 pairs over known "
             "canonical prefixes, known synonyms and unknown strings: plain renames, chains (a->b, b->c), swaps, "
